@@ -47,7 +47,10 @@ def gen_script(rnd, tier):
         for j in range(1, n):
             lines.append("q %d :" % j)
     if rnd.random() < 0.35:
-        c03.twin_scenario(rnd, lines, bases, kind, n)
+        if rnd.random() < 0.5:
+            c03.twin_scenario(rnd, lines, bases, kind, n)
+        else:
+            c03.twin_merge_scenario(rnd, lines, bases, kind, n)
     return lines, changed_indirect
 
 
@@ -109,7 +112,7 @@ def oracle(chk, lines, outs):
             if out != "ok":
                 bad.append((i, "__bases__ assignment failed: " + out))
             bases[int(f[1])] = list(a)
-        elif f[0] == "q":
+        elif f[0] in ("q", "qs"):
             c = int(f[1])
             d = c03.parse_q(out)
             if "imp" not in d:
@@ -193,6 +196,8 @@ def check(tier):
                 if l.startswith("q "):
                     hist[l] = o
             for l in qs:
+                if l not in hist:
+                    continue            # nodes of the twin scenarios are asked for their cached order only
                 chk.count("fresh_graph_comparisons")
                 hs, fs = c03.parse_q(hist.get(l, "")), c03.parse_q(fresh.get(l, ""))
                 if (hs.get("sro"), hs.get("imp")) != (fs.get("sro"), fs.get("imp")):
